@@ -383,6 +383,7 @@ func run(cx *lib.Ctx) {
 		}
 	}
 	directedUnify(cx)
+	directedSharedAttr(cx)
 	corrDec(cx)
 }
 
